@@ -135,11 +135,18 @@ def run(ctx: Ctx):
         for label, v in (("float", 1.5), ("float-int", 3.0), ("str", "12"), ("none", None), ("list", [1]),
                          ("bool-true", True), ("bool-false", False), ("nan", float("nan"))):
             for av in attr_variants:
+                emsg = None
                 try:
                     r = it.call(fn, [inst, av, v])
                     got = ("return", r)
                 except Raised as e:
                     got = ("raise", e.exc_name)
+                    emsg = " ".join(str(a) for a in e.exc_args)
+                if got == ("raise", "ValueError"):
+                    ctx.check("SomeClass" in emsg and "some_attr" in emsg, "error-names-class-and-attribute",
+                              f"{vname}:{label}:attr={'obj' if isinstance(av, Record) else 'str'}",
+                              f"{vname}({v!r}) raises ValueError({emsg!r}), which does not name class and attribute",
+                              P_VALIDATORS, fn.lineno)
                 ok = got == ("return", True) or got == ("raise", "ValueError")
                 if label in ("float", "float-int", "str", "none", "list", "nan"):
                     ok = got == ("raise", "ValueError")
@@ -231,7 +238,8 @@ def _entry_points_agree(ctx: Ctx):
                     raise Raised("TypeError", (f"unexpected keyword {sorted(extra)}",))
                 return Record(cls.name, vals)
             return ("host", ctor)
-        types_mod = ModuleRef("types", attrs={cn: ctor_for(cc) for cn, cc in t.classes.items() if cc.kind == "attrs"})
+        types_mod = ModuleRef("types", attrs={**{cn: ctor_for(cc) for cn, cc in t.classes.items() if cc.kind == "attrs"},
+                                              "validators": ModuleRef("validators", interp=vit)})
         it = Interp(name=h.rel, extra_globals={h.types_alias: types_mod, "validators": ModuleRef("validators", interp=vit)})
         lo, hi = {"integer": (-(2 ** 31), 2 ** 31 - 1), "uinteger": (0, 2 ** 31 - 1)}, None
         import itertools
